@@ -70,6 +70,15 @@ func bucketMiss(ci int, e entry, m, p int) bool {
 	return k != 0 && k != pathHash[ci][p]
 }
 
+// missName separates the two ways a matching route can be outside the selected bucket: the request
+// path is shorter than the 3-byte key (bucket 0 is selected), or its first 3 bytes differ from the route's key.
+func missName(ci, p int) string {
+	if len(pathDet[ci][p]) < 3 {
+		return "short-path-bucket-miss"
+	}
+	return "bucket-key-mismatch"
+}
+
 func (ws *wstate) classify(app *fiber.App, ci int, tbl []entry, mi, pi int, ref *refResult, o *observed) (sig, what string) {
 	if o.panicv != "" {
 		msg := o.panicv
@@ -125,7 +134,7 @@ func (ws *wstate) classify(app *fiber.App, ci int, tbl []entry, mi, pi int, ref 
 				}
 			}
 			if any && allMiss {
-				return fmt.Sprintf("short-path-bucket-miss pattern-class=%s at=allow-scan", patClass(first, cfgs[ci])),
+				return fmt.Sprintf("%s pattern-class=%s at=allow-scan", missName(ci, p), patClass(first, cfgs[ci])),
 					"end of chain: a method whose endpoint matches the path is not offered in Allow (404 instead of 405, or a smaller Allow set): the 405 scan looks in the bucket selected by the first 3 bytes of the request path, the route sits in another bucket"
 			}
 		}
@@ -135,6 +144,9 @@ func (ws *wstate) classify(app *fiber.App, ci int, tbl []entry, mi, pi int, ref 
 	}
 
 	ov, lastOv := ovAt(k)
+	if lastOv >= 0 {
+		ov = int(ref.eff[lastOv]) // name the override that last moved the scan to another slice (1 path, 2 method)
+	}
 	mK, pK := int(ref.stM[k]), int(ref.stP[k])
 	prev, e, ob := -1, -1, -1
 	if k > 0 {
@@ -163,14 +175,17 @@ func (ws *wstate) classify(app *fiber.App, ci int, tbl []entry, mi, pi int, ref 
 
 	// merged-handler mechanisms (duplicate-path merging in addRoute)
 	if ov != 0 && effect == "runs-nonmatching-entry" && prev >= 0 {
-		mPrev := int(ref.stM[k-1])
-		if ws.rt[ob][mPrev] != nil && ws.rt[ob][mPrev] == ws.rt[prev][mPrev] && ws.hi[ob][mPrev] > ws.hi[prev][mPrev] {
-			return fmt.Sprintf("override-%s-runs-merged-handler", ovNamesShort[ov]),
-				"after the override the next handler of the SAME route object ran although its registration does not match the new method/path: duplicate-path merging appended it to the overriding route's handler list, which Next() walks without re-matching"
+		// (any method stack: the request is still walking the handler list of the route object it entered
+		// under the old method)
+		for mm := 0; mm < nMeth; mm++ {
+			if ws.rt[ob][mm] != nil && ws.rt[ob][mm] == ws.rt[prev][mm] && ws.hi[ob][mm] > ws.hi[prev][mm] {
+				return fmt.Sprintf("override-%s-runs-merged-handler", ovNamesShort[ov]),
+					"after the override the next handler of the SAME route object ran although its registration does not match the new method/path: duplicate-path merging appended it to the overriding route's handler list, which Next() walks without re-matching"
+			}
 		}
 	}
 	if effect == "skips-later-entry" && e >= 0 && bucketMiss(ci, tbl[e], mK, pK) {
-		return fmt.Sprintf("short-path-bucket-miss pattern-class=%s at=dispatch", patClass(tbl[e], cfgs[ci])),
+		return fmt.Sprintf("%s pattern-class=%s at=dispatch", missName(ci, pK), patClass(tbl[e], cfgs[ci])),
 			"a route whose own matcher accepts the path never runs: the request path selects a bucket by its first 3 bytes (bucket 0 when shorter), the route was filed under the first 3 bytes of its constant prefix"
 	}
 	if ov != 0 && effect == "skips-later-entry" && e >= 0 && ws.rt[e][mK] != nil {
@@ -182,10 +197,13 @@ func (ws *wstate) classify(app *fiber.App, ci int, tbl []entry, mi, pi int, ref 
 		}
 	}
 	if ov != 0 {
+		what := "after Path()/Method() the scan continues at the old numeric index inside a different bucket / method stack, so later-registered matching entries are skipped or already-passed entries run (again)"
+		if ov == 2 {
+			return fmt.Sprintf("override-method-cursor-reuse effect=%s", effect), what
+		}
 		oldL := bucketLabel(app, ci, int(ref.stM[lastOv]), int(ref.stP[lastOv]))
 		newL := bucketLabel(app, ci, int(ref.stM[lastOv+1]), int(ref.stP[lastOv+1]))
-		return fmt.Sprintf("override-%s-cursor-reuse effect=%s buckets=%s->%s", ovNamesShort[ov], effect, oldL, newL),
-			"after Path()/Method() the scan continues at the old numeric index inside a different bucket / method stack, so later-registered matching entries are skipped or already-passed entries run (again)"
+		return fmt.Sprintf("override-path-cursor-reuse effect=%s buckets=%s->%s", effect, oldL, newL), what
 	}
 	_ = subject
 	return fmt.Sprintf("no-override dispatch-differs-from-linear-scan effect=%s", effect),
